@@ -3,7 +3,7 @@ Require Extraction.
 Require ExtrOcamlBasic.
 From Coq Require Import List NArith String.
 From TG.Gen Require Import GenTokens GenLexTables GenCompletion GenGrammar GenAst.
-From TG.Model Require Import Chars Lexer Prep Tree ParserPrims GInterp Completion.
+From TG.Model Require Import Chars Lexer Prep Tree ParserPrims GInterp Completion SymbolMap CompletionSM.
 
 Extraction Language OCaml.
 Extraction "extract/compl_core.ml"
@@ -13,4 +13,5 @@ Extraction "extract/compl_core.ml"
   accepted_statement_from_b parse_with parse_fuel grammar_prog grammar_entry
   offered_keywords offered_types offered_values offered_bangops
   toplevel_keyword_items primitive_type_items primitive_value_items bang_operator_items
-  bangop_table keyword_table stmt_witness_table bang_trigger.
+  bangop_table keyword_table stmt_witness_table bang_trigger
+  run_ops class_syms completion_sm last_class_decl.
